@@ -479,3 +479,111 @@ Proof.
        snd Nat.add Nat.sub Nat.modulo Nat.divmod Nat.eqb Nat.ltb Nat.leb fadd].
   rewrite !(Z.mod_small (0 + _)) by lia. change (1 mod M64) with 1. reflexivity.
 Qed.
+
+(* ------------------------------------------------------------------------------------------------ Jive, every length
+   Block-recursive form of RpJive64_256::hash_elements (state = 4 capacity + 4 rate elements): every full block of 4
+   elements is ADDED to the rate and permuted; a final partial block of r = 1..3 elements is added to the first r rate
+   positions while the remaining ones are OVERWRITTEN with 1, 0, .., 0 (as coded), then permuted. *)
+Definition add4 (p : Z) (st : list Z) (a b c d : Z) : list Z :=
+  match st with
+  | [c0; c1; c2; c3; r0; r1; r2; r3] => [c0; c1; c2; c3; fadd p r0 a; fadd p r1 b; fadd p r2 c; fadd p r3 d]
+  | _ => st
+  end.
+Definition pad_last (p : Z) (st : list Z) (tail : list Z) : list Z :=
+  match st, tail with
+  | [c0; c1; c2; c3; r0; r1; r2; r3], [a] => [c0; c1; c2; c3; fadd p r0 a; 1 mod p; 0; 0]
+  | [c0; c1; c2; c3; r0; r1; r2; r3], [a; b] => [c0; c1; c2; c3; fadd p r0 a; fadd p r1 b; 1 mod p; 0]
+  | [c0; c1; c2; c3; r0; r1; r2; r3], [a; b; c] => [c0; c1; c2; c3; fadd p r0 a; fadd p r1 b; fadd p r2 c; 1 mod p]
+  | _, _ => st
+  end.
+Fixpoint jive_run (p : Z) (perm : list Z -> list Z) (fuel : nat) (st xs : list Z) : list Z :=
+  match fuel with
+  | O => st
+  | S f =>
+      match xs with
+      | [] => st
+      | a :: b :: c :: d :: rest => jive_run p perm f (perm (add4 p st a b c d)) rest
+      | tail => perm (pad_last p st tail)
+      end
+  end.
+Definition jive_init (p : Z) (n : nat) : list Z := if Nat.eqb (n mod 4) 0 then zeros 8 else upd 0 (fun _ => 1 mod p) (zeros 8).
+
+Section JiveBlocks.
+  Variable p : Z.
+  Variable perm : list Z -> list Z.
+  Hypothesis perm_len : forall s, length s = 8%nat -> length (perm s) = 8%nat.
+  Let S := mkSponge 8 4 4 0 4 perm.
+
+  Definition jive_finish (sti : list Z * nat) : list Z :=
+    if (0 <? snd sti)%nat then perm (jive_pad p S (fst sti) (snd sti)) else fst sti.
+
+  Ltac st8 st := destruct st as [|c0 [|c1 [|c2 [|c3 [|r0 [|r1 [|r2 [|r3 [|? ?]]]]]]]]]; try discriminate.
+
+  Lemma add4_len st a b c d : length st = 8%nat -> length (add4 p st a b c d) = 8%nat.
+  Proof. intros H. st8 st. reflexivity. Qed.
+
+  Lemma absorb_full st a b c d rest : length st = 8%nat ->
+    absorb p S st 0 (a :: b :: c :: d :: rest) = absorb p S (perm (add4 p st a b c d)) 0 rest.
+  Proof.
+    intros H. st8 st. unfold S.
+    cbv [absorb sp_rate_start sp_rate_width sp_perm upd Nat.add Nat.modulo Nat.divmod Nat.eqb fst snd add4]. fold (absorb p (mkSponge 8 4 4 0 4 perm)).
+    reflexivity.
+  Qed.
+
+  Lemma finish_tail st tail : length st = 8%nat -> (1 <= length tail <= 3)%nat ->
+    jive_finish (absorb p S st 0 tail) = perm (pad_last p st tail).
+  Proof.
+    intros H Ht. st8 st. destruct tail as [|a [|b [|c [|? ?]]]]; cbn [length] in Ht; try lia; unfold S, jive_finish;
+      cbv [absorb jive_pad sp_rate_start sp_rate_width sp_perm upd Nat.add Nat.sub Nat.modulo Nat.divmod Nat.eqb Nat.ltb Nat.leb fst snd seq fold_left pad_last];
+      reflexivity.
+  Qed.
+
+  Lemma jive_run_spec : forall fuel xs st, (length xs <= fuel)%nat -> length st = 8%nat ->
+    jive_finish (absorb p S st 0 xs) = jive_run p perm fuel st xs.
+  Proof.
+    induction fuel as [|f IH]; intros xs st Hl Hs.
+    - destruct xs; [reflexivity | cbn in Hl; lia].
+    - destruct xs as [|a [|b [|c [|d rest]]]].
+      + reflexivity.
+      + cbn [jive_run]. apply finish_tail; cbn; auto; lia.
+      + cbn [jive_run]. apply finish_tail; cbn; auto; lia.
+      + cbn [jive_run]. apply finish_tail; cbn; auto; lia.
+      + cbn [jive_run]. rewrite absorb_full by exact Hs. apply IH.
+        * cbn [length] in Hl. lia.
+        * apply perm_len, add4_len, Hs.
+  Qed.
+
+  (* RpJive64_256::hash_elements for EVERY length, in block form *)
+  Theorem jive_hash_elements_blocks : forall xs,
+    hash_elements_jive p S xs = digest_of S (jive_run p perm (length xs) (jive_init p (length xs)) xs).
+  Proof.
+    intros xs. unfold hash_elements_jive. cbn [sp_rate_width sp_width sp_cap_idx S].
+    rewrite <- (jive_run_spec (length xs) xs (jive_init p (length xs)) (le_n _)).
+    - unfold jive_finish, jive_init. fold S. destruct (absorb p S _ 0 xs) as (st, i). reflexivity.
+    - unfold jive_init. destruct (Nat.eqb (length xs mod 4) 0); reflexivity.
+  Qed.
+
+  (* the last (partial, padded) block is injective in its elements for a fixed incoming state: different tails -- also of
+     different lengths -- give different permutation inputs *)
+  Hypothesis Hp : 1 < p.
+  Lemma fadd_inj r a b : 0 <= a < p -> 0 <= b < p -> fadd p r a = fadd p r b -> a = b.
+  Proof.
+    unfold fadd. intros Ha Hb H.
+    assert (E : (a - b) mod p = 0).
+    { replace (a - b) with ((r + a) - (r + b)) by ring. rewrite Zminus_mod, H, Z.sub_diag. apply Z.mod_0_l. lia. }
+    apply Z.mod_divide in E; [|lia]. destruct E as (k & E). assert (k = 0) by nia. lia.
+  Qed.
+
+  Theorem pad_last_inj st t t' : length st = 8%nat -> (1 <= length t <= 3)%nat -> (1 <= length t' <= 3)%nat ->
+    Forall (fun x => 0 <= x < p) t -> Forall (fun x => 0 <= x < p) t' -> pad_last p st t = pad_last p st t' -> t = t'.
+  Proof.
+    intros Hs Ht Ht' Ft Ft' E. st8 st.
+    assert (H1 : 1 mod p = 1) by (apply Z.mod_small; lia).
+    destruct t as [|a [|b [|c [|? ?]]]]; cbn [length] in Ht; try lia;
+    destruct t' as [|a' [|b' [|c' [|? ?]]]]; cbn [length] in Ht'; try lia;
+    cbn [pad_last] in E; rewrite ?H1 in E; injection E; intros; try discriminate; try lia;
+    repeat match goal with H : Forall _ (_ :: _) |- _ => inversion H; clear H; subst end;
+    repeat match goal with H : fadd p ?r ?x = fadd p ?r ?y |- _ => apply fadd_inj in H; [subst|assumption|assumption] end;
+    reflexivity.
+  Qed.
+End JiveBlocks.
